@@ -22,7 +22,7 @@ const (
 	bankSrt = "(Array Addr (Array Str Int))"
 )
 
-var sinkRe = regexp.MustCompile(`(^\(github\.com/tendermint/tendermint/libs/log\.Logger\)\.)|(\.Logger$)|(^github\.com/cosmos/cosmos-sdk/telemetry\.)|(EventManager\)\.Emit)|(\)\.EventManager$)|(^github\.com/cosmos/cosmos-sdk/types\.NewEvent$)|(^github\.com/cosmos/cosmos-sdk/types\.NewAttribute$)|(^time\.Now$)|(^fmt\.Print)|(^github\.com/armon/go-metrics)|(^\(time\.Time\)\.)`)
+var sinkRe = regexp.MustCompile(`(^\(github\.com/tendermint/tendermint/libs/log\.Logger\)\.)|(\.Logger$)|(^github\.com/cosmos/cosmos-sdk/telemetry\.)|(EventManager\)\.Emit)|(\)\.EventManager$)|(^github\.com/cosmos/cosmos-sdk/types\.NewEvent$)|(^github\.com/cosmos/cosmos-sdk/types\.NewAttribute$)|(^fmt\.Print)|(^github\.com/armon/go-metrics)`)
 
 func isSinkName(n string) bool {
 	return sinkRe.MatchString(n)
@@ -133,6 +133,10 @@ func init() {
 	extRules["("+sdkT+".Context).BlockTime"] = func(cc *callCtx) ([]string, bool) {
 		cc.e.g().DeclFun("BlockTime", nil, "Int")
 		return []string{"BlockTime"}, true
+	}
+	extRules["time.Now"] = func(cc *callCtx) ([]string, bool) {
+		// wall clock: a fresh unconstrained value at every call (non-consensus input)
+		return []string{cc.e.havocSort("Int", "wallclock")}, true
 	}
 	extRules["(time.Time).Unix"] = func(cc *callCtx) ([]string, bool) {
 		cc.e.g().DeclFun("unixOf", []string{"Int"}, "Int")
